@@ -8,7 +8,9 @@ import (
 	"encoding/json"
 	"fmt"
 	"math/rand"
+	"os"
 	"runtime/debug"
+	"strings"
 	"time"
 
 	"github.com/godaddy/asherah/go/appencryption"
@@ -38,18 +40,28 @@ type world struct {
 	snap []fakes.Row
 	recs map[string]rec // own, same, old, foreign
 	rng  *rand.Rand
+	// flavour of the factory that decrypts the next case: with key caches (and then every record is decrypted twice through the
+	// same session: the second access goes through what the first one cached), with a region-suffixed metastore
+	cached, suffixed bool
 }
 
-func policy() *appencryption.CryptoPolicy {
-	p := appencryption.NewCryptoPolicy(appencryption.WithExpireAfterDuration(3*time.Second), appencryption.WithRevokeCheckInterval(time.Second), appencryption.WithNoCache())
+func (x *world) policy() *appencryption.CryptoPolicy {
+	opts := []appencryption.PolicyOption{appencryption.WithExpireAfterDuration(3 * time.Second), appencryption.WithRevokeCheckInterval(time.Second)}
+	if !x.cached {
+		opts = append(opts, appencryption.WithNoCache())
+	}
+	p := appencryption.NewCryptoPolicy(opts...)
 	p.CreateDatePrecision = time.Second
 	return p
 }
 
 func (x *world) factory() *appencryption.SessionFactory {
 	ms := &fakes.Metastore{W: x.w, Proc: "t", Quiet: true}
+	if x.suffixed {
+		ms.Suffix = "us-west-2" // the records were written without suffix: a suffixed partition accepts its base ids
+	}
 	kms := &fakes.KMS{W: x.w, Proc: "t", Quiet: true}
-	return appencryption.NewSessionFactory(&appencryption.Config{Service: "svc", Product: "prod", Policy: policy()}, ms, kms, x.w.Real)
+	return appencryption.NewSessionFactory(&appencryption.Config{Service: "svc", Product: "prod", Policy: x.policy()}, ms.AsSDK(), kms, x.w.Real)
 }
 
 func newWorld(seed int64) (*world, error) {
@@ -167,7 +179,9 @@ func (x *world) build(c *Case, bit, cut int) (appencryption.DataRowRecord, []byt
 			own.Created = 0
 			k.ParentKeyMeta = &own
 		case "garbage-id":
-			own.ID += "X"
+			// an id that is no key id of this partition: extended, cut, without any separator, only separators, empty
+			g := []string{own.ID + "X", own.ID + "_", own.ID[:len(own.ID)-1], "", "x", "garbage", "_", "__", "_IK_", "_IK__svc_prod"}
+			own.ID = g[x.rng.Intn(len(g))]
 			k.ParentKeyMeta = &own
 		case "nil":
 			k.ParentKeyMeta = nil
@@ -200,6 +214,10 @@ func (x *world) corrupt(c *Case) {
 		x.w.MutateRow(ikm.ID, ikm.Created, func(r *fakes.Row) { r.Parent.Created += 977 })
 	case "deleted":
 		x.w.DeleteRow(ikm.ID, ikm.Created)
+	case "epoch-copy":
+		cp := row
+		cp.Created = 0
+		x.w.PutRow(cp)
 	}
 	switch c.SK {
 	case "key-tampered":
@@ -223,10 +241,22 @@ type Event struct {
 	Bit    int    `json:"bit"`
 	Cut    int    `json:"cut"`
 	Run    int    `json:"run"`
+	// flavour of the decrypting factory
+	Cached   bool `json:"cached"`
+	Suffixed bool `json:"suffixed"`
 }
 
+// CurrentCase, if set, names a file that always holds the case being executed.
+var CurrentCase string
+
 func (x *world) run(c *Case, bit, cut int, via string) Event {
-	ev := Event{E: "case", Data: c.Data, Key: c.Key, Meta: c.Meta, IK: c.IK, SK: c.SK, Via: via, Bit: bit, Cut: cut, Run: 1}
+	ev := Event{E: "case", Data: c.Data, Key: c.Key, Meta: c.Meta, IK: c.IK, SK: c.SK, Via: via, Bit: bit, Cut: cut, Run: 1,
+		Cached: x.cached, Suffixed: x.suffixed}
+	if CurrentCase != "" {
+		// a fatal error of the runtime (stack overflow, fault) cannot be recovered: leave a note of what was running
+		b, _ := json.Marshal(ev)
+		os.WriteFile(CurrentCase, b, 0o644)
+	}
 	x.w.Restore(x.snap)
 	x.corrupt(c)
 	d, bound := x.build(c, bit, cut)
@@ -245,11 +275,29 @@ func (x *world) run(c *Case, bit, cut int, via string) Event {
 			return
 		}
 		defer s.Close()
-		var out []byte
-		if via == "load" {
-			out, err = s.Load(context.Background(), "k", persistence.LoaderFunc(func(context.Context, interface{}) (*appencryption.DataRowRecord, error) { return &d, nil }))
-		} else {
-			out, err = s.Decrypt(context.Background(), d)
+		once := func() ([]byte, error) {
+			cp := d
+			if d.Key != nil {
+				k := *d.Key
+				if k.ParentKeyMeta != nil {
+					m := *k.ParentKeyMeta
+					k.ParentKeyMeta = &m
+				}
+				cp.Key = &k
+			}
+			if via == "load" {
+				return s.Load(context.Background(), "k", persistence.LoaderFunc(func(context.Context, interface{}) (*appencryption.DataRowRecord, error) { return &cp, nil }))
+			}
+			return s.Decrypt(context.Background(), cp)
+		}
+		out, err := once()
+		if x.cached {
+			// the same record again through the same session: whatever the first access cached must not change the answer
+			out2, err2 := once()
+			if (err == nil) != (err2 == nil) || (err == nil && !bytes.Equal(out, out2)) {
+				ev.Result, ev.Detail = "panic", fmt.Sprintf("second access through the same session answered differently: first (%v, %d bytes), second (%v, %d bytes)", err, len(out), err2, len(out2))
+				return
+			}
 		}
 		if err != nil {
 			ev.Result, ev.Detail = "error", err.Error()
@@ -303,9 +351,14 @@ func Replay(inPath, tracePath, outPath string, seed int64, exhaustive int) error
 		if n%3 == 0 {
 			via = "load"
 		}
+		x.cached, x.suffixed = n%2 == 1, (n/2)%2 == 1
+		if f := os.Getenv("VERIF_TAMPER_FLAVOUR"); f != "" { // replay of one recorded case under its flavour
+			x.cached, x.suffixed = strings.Contains(f, "cached"), strings.Contains(f, "suffixed")
+		}
 		tw.Emit(x.run(&c, -1, -1, via))
 		return nil
 	})
+	x.cached, x.suffixed = false, false
 	if exhaustive > 0 {
 		own := x.recs["own"].drr
 		intact := func(d, k string) *Case { return &Case{Data: d, Key: k, Meta: "own", IK: "intact", SK: "intact"} }
